@@ -41,20 +41,54 @@ type Result struct {
 	Files   int
 }
 
+var extraSrc = map[string][]byte{}
+
 type Error struct{ Msg string }
 
 func (e *Error) Error() string { return "instrumentation failed: " + e.Msg }
 
 // Generate writes the overlay for repo into workRoot/ov-<hash>.
 func Generate(repo, exportDir, workRoot string, extra map[string]string) (*Result, error) {
+	return GenerateFrom(repo, repo, exportDir, workRoot, extra)
+}
+
+// GenerateFrom reads the sources from src (a checkout that may differ from repo, e.g. a scratch
+// worktree with a candidate change) but keys the overlay on repo's paths, so that the build of the
+// module at repo sees src's files without repo being touched.
+func GenerateFrom(repo, src, exportDir, workRoot string, extra map[string]string) (*Result, error) {
 	type outFile struct {
 		orig string
 		data []byte
 	}
 	var outs []outFile
 	h := sha256.New()
+	rewritten := map[string]bool{}
+	if src != repo {
+		// every non-test Go file that differs from repo's copy enters the overlay verbatim (rewritten below if needed)
+		filepath.Walk(src, func(path string, info os.FileInfo, err error) error {
+			if err != nil {
+				return nil
+			}
+			rel, _ := filepath.Rel(src, path)
+			if info.IsDir() {
+				if strings.HasPrefix(info.Name(), ".") || strings.HasPrefix(info.Name(), "_") || rel == "web" {
+					return filepath.SkipDir
+				}
+				return nil
+			}
+			if !strings.HasSuffix(path, ".go") || strings.HasSuffix(path, "_test.go") {
+				return nil
+			}
+			a, _ := os.ReadFile(path)
+			b, errb := os.ReadFile(filepath.Join(repo, rel))
+			if errb != nil || !bytes.Equal(a, b) {
+				extraSrc[filepath.Join(repo, rel)] = a
+			}
+			return nil
+		})
+	}
 	for _, pkg := range syncPkgs {
-		dir := filepath.Join(repo, pkg)
+		dir := filepath.Join(src, pkg)
 		ents, err := os.ReadDir(dir)
 		if err != nil {
 			continue
@@ -65,20 +99,37 @@ func Generate(repo, exportDir, workRoot string, extra map[string]string) (*Resul
 				continue
 			}
 			path := filepath.Join(dir, name)
-			src, err := os.ReadFile(path)
+			data, err := os.ReadFile(path)
 			if err != nil {
 				return nil, err
 			}
-			out, changed, err := rewrite(path, src, pkg)
+			orig := filepath.Join(repo, pkg, name)
+			out, changed, err := rewrite(orig, data, pkg)
 			if err != nil {
 				return nil, &Error{fmt.Sprintf("%s: %v", path, err)}
 			}
 			if changed {
-				outs = append(outs, outFile{path, out})
-				h.Write([]byte(path))
+				outs = append(outs, outFile{orig, out})
+				h.Write([]byte(orig))
 				h.Write(out)
+				rewritten[orig] = true
 			}
 		}
+	}
+	var diffKeys []string
+	for k := range extraSrc {
+		if !rewritten[k] {
+			diffKeys = append(diffKeys, k)
+		}
+	}
+	sort.Strings(diffKeys)
+	for _, k := range diffKeys {
+		outs = append(outs, outFile{k, extraSrc[k]})
+		h.Write([]byte(k))
+		h.Write(extraSrc[k])
+	}
+	for k := range extraSrc {
+		delete(extraSrc, k)
 	}
 	var pkgs []string
 	for p := range exportFiles {
